@@ -135,7 +135,7 @@ def check(repo, rep):
         if isstop:
             kinds['stop'] += 1
             exits = [e for e in l.effects if e[0] == 'loop-exit']
-            ok = l.outcome in ('fall', 'return') and exits and exits[-1][1] == 'break' and not proc
+            ok = l.outcome in ('fall', 'return') and exits and exits[-1][1] in ('break', 'return') and not proc      # `return` only inside an inlined loop helper: the post-process obligation below decides what follows
             rep.ob('F3: the stop marker ends the loop (and is not processed as a detection)', bool(ok), where, 'Worker.run[STOP]', 'outcome %s, processed %s' % (l.outcome, [show(p[1])[:40] for p in proc]))
             idx_exit = max(i for i, e in enumerate(l.effects) if e[0] == 'loop-exit') if exits else -1
             after = [e for e in post if l.effects.index(e) > idx_exit]
@@ -203,9 +203,23 @@ def check(repo, rep):
             oke = it[0] == 'call' and it[1] == ('b', 'enumerate') and it[2] == (('attr', ('self',), genf[0] if genf else ''),) and dict(it[3]).get('start') == ('c', 1)
             if it[0] == 'call' and it[1] == ('b', 'enumerate') and len(it[2]) == 2:
                 oke = it[2] == (('attr', ('self',), genf[0] if genf else ''), ('c', 1))
-            rep.ob('F5: ids are enumerate(detections of split, start=1): 1, 2, 3, ... in detection order', oke, where, 'TokenizerWorker.run:enumerate', 'loop over %s' % show(it)[:100], sample=dict(loop=show(it)[:90]))
             elem = ('elem', it)
             idt, reg = ('sub', elem, ('c', 0)), ('sub', elem, ('c', 1))
+            if not oke and it == ('attr', ('self',), genf[0] if genf else ''):
+                # the loop runs over the detections themselves with an explicit counter: a local that is 0 before the loop and
+                # is incremented by exactly 1, once, at the start of every iteration (its value at the end of the iteration
+                # is the incremented one)
+                ends = [n_[2] for n_ in l.notes if isinstance(n_, tuple) and n_[0] == 'loop-end-env']
+                cand = [(k, v) for env_ in ends for k, v in env_.items()
+                        if v is not None and v[0] == 'bin' and v[1] == '+' and {v[2], v[3]} >= {('c', 1)} and any(x[0] == 'loopvar' and x[1] == k and len(x) == 4 and x[3] == ('c', 0) for x in (v[2], v[3]))]
+                if len(cand) == 1:
+                    idt, reg = cand[0][1], elem
+                    rep.ob('F5: ids are enumerate(detections of split, start=1): 1, 2, 3, ... in detection order', True, where, 'TokenizerWorker.run:enumerate', sample=dict(loop='counter %s over %s' % (cand[0][0], show(it)[:60])))
+                else:
+                    rep.unknown('TokenizerWorker.run: how detections are numbered was not recognised (loop over %s, no enumerate(..., start=1) and no unit counter starting at 0)' % show(it)[:80])
+                    continue
+            else:
+                rep.ob('F5: ids are enumerate(detections of split, start=1): 1, 2, 3, ... in detection order', oke, where, 'TokenizerWorker.run:enumerate', 'loop over %s' % show(it)[:100], sample=dict(loop=show(it)[:90]))
             inloop = [(i, c) for i, c in datas if loop_in[0] < i < max(loop_out)]
             ok = len(inloop) == 1 and inloop[0][1][2][0] == ('tuple', (idt, reg))
             rep.ob('F5: every detection is sent to the observers exactly once as (id, region), unconditionally', ok, where, 'TokenizerWorker.run:notify', 'data notifications in the loop: %s' % [show(c)[:90] for _, c in inloop],
@@ -324,8 +338,13 @@ def check(repo, rep):
                 # observers unpack (id, region)
                 lv = cx.leaves_of(*h)
                 pn = h[2].args.args[1].arg
-                unp = any(isinstance(st_, ast.Assign) and isinstance(st_.targets[0], ast.Tuple) and len(st_.targets[0].elts) == 2 and isinstance(st_.value, ast.Name) and st_.value.id == pn for st_ in ast.walk(h[2]))
-                rep.ob('F10: observers unpack the message as (id, region)', unp, cx.where(h[0], h[2]), '%s.%s:unpack' % (c.name, hook))
+                uses = {x[2][1] for l in lv for e in l.effects for t_ in (e[1], e[2]) if isinstance(t_, tuple) for x in walk(t_)
+                        if x[0] == 'sub' and x[1] == ('p', pn) and x[2][0] == 'c' and isinstance(x[2][1], int)}
+                uses |= {x[2][1] for l in lv for v_ in l.env.values() if isinstance(v_, tuple) for x in walk(v_) if x[0] == 'sub' and x[1] == ('p', pn) and x[2][0] == 'c' and isinstance(x[2][1], int)}
+                if not uses:
+                    rep.unknown('%s.%s: how the message is taken apart was not recognised' % (c.name, hook))
+                else:
+                    rep.ob('F10: observers unpack the message as (id, region)', 1 in uses and uses <= {0, 1}, cx.where(h[0], h[2]), '%s.%s:unpack' % (c.name, hook), 'components used: %s' % sorted(uses))
     rep.floor('concrete worker classes', nconc, 7)
     rep.explanation = ('The property holds under every interleaving if ten facts hold, given queue.Queue (unbounded FIFO, thread-safe, put never blocks) and Thread.join; each fact is decided on the source by path '
                        'enumeration with the message abstracted to {NONE (timeout), STOP, DATA}: F1 inbox = queue.Queue() created once; F2 only self touches it, only via put/get/get_nowait, every blocking get has a '
